@@ -211,14 +211,14 @@ def random_region(rnd):
     if rnd.random() < 0.5:
         meta['include'] = rnd.choice([True, False, 1, 0])
     if rnd.random() < 0.4:
-        meta['tag'] = [rnd.choice(['t1', 'group a']) for _ in range(rnd.randint(1, 3))]
+        meta['tag'] = [rnd.choice(['t1', 'group a', 'group  A', 'zz', 'Group 10', 'Group 2']) for _ in range(rnd.randint(1, 3))]
     if rnd.random() < 0.4:
         visual['color'] = rnd.choice(['red', 'blue', '#00ff7f'])
     if rnd.random() < 0.3:
         visual['linewidth'] = rnd.randint(1, 4)
     kind = rnd.choice(['Circle', 'Ellipse', 'Rectangle', 'CircleAnnulus', 'EllipseAnnulus', 'RectangleAnnulus', 'Polygon', 'Line', 'Point', 'Text'])
     if kind not in ('Text',) and rnd.random() < 0.3:
-        meta['text'] = rnd.choice(['a label', 'x;y', 'k=v # z', '123', 'semi; colon', '', "FOV 5'", '2" beam', '"quoted"', "'tis", ';lead', '; note', ';', 'end;', '#first', '=x'])
+        meta['text'] = rnd.choice(['a label', 'x;y', 'k=v # z', '123', 'semi; colon', '', "FOV 5'", '2" beam', '"quoted"', "'tis", ';lead', '; note', ';', 'end;', '#first', '=x', 'NGC 1234   (core)', 'two  blanks', ' lead blank'])
     K = getattr(R, kind + ('PixelRegion' if pix else 'SkyRegion'))
     kw = {'meta': meta, 'visual': visual}
     if kind == 'Circle':
